@@ -118,6 +118,8 @@ KANI_GROUPS = {
             dict(name="vk_highest_index_l3", kind="bounded(L=3, 5 steps)", timeout=600, props=["C04"], witness_units=["highest_lowest_index"]),
             dict(name="vk_lowest_index_l3", kind="bounded(L=3, 5 steps)", timeout=600, props=["C04"], witness_units=["highest_lowest_index"]),
             dict(name="vk_smm_l3", kind="bounded(L=3, 5 steps over a 5-letter alphabet incl. both zeros)", timeout=1800, tier="thorough", props=["C04"]),
+            dict(name="vk_smm_l1_bits", kind="bounded(L=1, 3 steps over a 5-letter alphabet incl. both zeros)", timeout=900, tier="thorough", props=["C04"]),
+            dict(name="vk_smm_l1_bits", kind="bounded(L=1, 3 steps over a 5-letter alphabet incl. both zeros, unsafe_performance)", timeout=900, tier="thorough", props=["C19"], features=["unsafe_performance"]),
             dict(name="vk_smm_l3_quad", kind="bounded(L=3, 5 steps over {1,2,3,5})", timeout=1800, witness_timeout=1800, tier="thorough", props=["C04"], witness_units=["smm"], witness_fns=["SMM::next", "find_index", "find_insert_index", "next_half", "<unit>"]),
             dict(name="vk_smm_l3_quad", kind="bounded(L=3, 5 steps over {1,2,3,5}, unsafe_performance)", timeout=1800, witness_timeout=1800, tier="thorough", props=["C04", "C19"], features=["unsafe_performance"], witness_units=["smm"], witness_fns=["SMM::next", "find_index", "find_insert_index", "next_half", "<unit>"]),
             dict(name="vk_smm_l3_guarded", kind="bounded(L=3, 5 steps over a 5-letter alphabet, no negative zero)", timeout=1800, tier="thorough", props=["C04"]),
@@ -146,13 +148,14 @@ KANI_GROUPS = {
         harnesses=[
             dict(name="vk_window_slice_index", kind="complete", timeout=300, props=["C01"], witness_units=["window"]),
             dict(name="vk_window_index_newest_oldest", kind="complete", timeout=300, props=["C01"], witness_units=["window"]),
+            dict(name="vk_window_get", kind="complete", timeout=300, props=["C01"], witness_units=["window"]),
             dict(name="vk_window_push", kind="complete", timeout=300, props=["C01"], witness_units=["window"]),
             dict(name="vk_window_iter_steps", kind="complete", timeout=300, props=["C01"], witness_units=["window"]),
             dict(name="vk_window_iter_last", kind="complete", timeout=300, props=["C01"], witness_units=["window"]),
             dict(name="vk_window_empty", kind="complete", timeout=300, props=["C01"], witness_units=["window"]),
             dict(name="vk_window_from_parts", kind="bounded(length 5, every oldest-index)", timeout=300, props=["C01", "C13"], witness_units=["window", "window_serde"]),
         ] + [dict(name=n, kind="complete", timeout=300, props=["C19"], features=["unsafe_performance"]) for n in
-             ["vk_window_slice_index", "vk_window_index_newest_oldest", "vk_window_push", "vk_window_iter_steps", "vk_window_iter_last", "vk_window_empty"]] + [
+             ["vk_window_slice_index", "vk_window_index_newest_oldest", "vk_window_get", "vk_window_push", "vk_window_iter_steps", "vk_window_iter_last", "vk_window_empty"]] + [
         ]),
 }
 
@@ -175,7 +178,7 @@ PROPS = {
                "generic T) against the abstract view 'the last N pushed values, oldest first'; the u8 index kernels are re-proved "
                "bit-precisely by Kani over the whole (size,index,arg) domain with a labelled buffer (loop-free, complete)."),
         assumptions=["std specs assumed: mem::replace, Vec->Box<[T]> conversion, slice get_unchecked(_mut) (in-bounds precondition is an obligation)",
-                     "the hand-written serde impls are not extracted (R11); the round trip is proved for from_parts(buf, index)",
+                     "the hand-written Deserialize of Window is verified in unit window_serde (C13); from_parts is specified over the abstract sequence only",
                      "Iterator/Index/From impls are checked as inherent fns with the same bodies (R12)"],
     ),
 }
@@ -257,7 +260,7 @@ PROPS["C10"] = dict(
                  "debug assertions are treated as enabled"],
 )
 PROPS["C19"] = dict(
-    verus=["window", "smm"], kani=["window"],
+    verus=["window", "smm"], kani=["window", "methods"],
     claim=("cfg!(feature = \"unsafe_performance\") is replaced by an unconstrained boolean inside the same extracted functions (rule R6), so every "
            "Window/WindowIterator/ReversedWindowIterator postcondition is proved for both code paths (identical observable results) and every "
            "get_unchecked / get_unchecked_mut carries its in-bounds precondition as an obligation discharged from the representation invariant, "
@@ -341,10 +344,11 @@ PROPS["C05"] = dict(
            "as documented; with the component contracts of C02-C04 this is the formula on the candle history, by induction over next."),
     assumptions=[REALS, "all 36 shipped indicators are under contract (`example` is a sample, not shipped); generic ones for an arbitrary MovingAverageConstructor M whose "
                  "instance satisfies the Method/MovingAverage trait contract; the concrete dispatch enum MA/MAInstance (helpers/methods.rs) is verified in unit ma_dispatch to "
-                 "construct and step exactly the wrapped kind (each of the 15 kinds has its own unit); what is NOT machine-checked is that every kind satisfies the "
-                 "extra MovingAverage facts (input_always_ok, within/convex) used by RSI/Stochastic/Keltner ranges - those are proved for SMA, WMA and EMA only (ma_laws)",
+                 "construct and step exactly the wrapped kind (each of the 15 kinds has its own unit), and unit ma_instance proves that MA / MAInstance satisfy that trait contract "
+                 "(Method and MovingAverage facts for all 15 kinds and for the enum; MovingAverageConstructor for MA), so the generic proofs apply to the crate's own constructor; "
+                 "ma_dispatch/ma_instance are verified for the default PeriodType only (under period_type_u64 WMA/HMA/SWMA/LinReg constructors carry a width precondition)",
                  "TrendStrengthIndex has no published formula: its contract is the regression/correlation expression the code computes over the window sums; "
-                 "Kaufman's filtered signal and the ranges of ADX/+DI/-DI are not specified",
+                 "Kaufman's filtered signal is specified as implemented (its documentation only says 'additional filtering using standard deviation'); the ranges of ADX/+DI/-DI are not specified",
                  "methods used through their trait contract only (verified in their own units): TSI, TMA, Momentum/Change, RateOfChange, SWMA, HMA, CCI, LinearVolatility, StDev, Highest, Lowest, ADI, ReversalSignal",
                  "IndicatorResult::new is used through a contract that is not verified in Verus; the same contract is proved by the Kani harness vk_indicator_result_new",
                  "std trait impls (IndicatorConfig/IndicatorInstance) are checked as inherent fns with the same bodies (R12)"],
@@ -358,7 +362,7 @@ PROPS["C06"] = dict(
                  "only " + COVERED_INDICATORS + " are covered", "Action::from(f64) appears as the uninterpreted action_of_real (its bit-level behaviour is C16)",
                  "PivotReversalStrategy: the Verus contract states what the code computes (se - le), NOT the documented rule; the documented rule is the bounded Kani "
                  "harness vk_pivot_reversal_silent_without_pivot, which fails and is listed as a known finding",
-                 "Kaufman: the filtered signal (filter_period > 1) is not specified, only the unfiltered crossing; "
+                 "Kaufman: the filtered signal (filter_period > 1) is specified as implemented (kama_filtered); "
                  "indicators that embed a ReversalSignal (Trix, CoppockCurve, AwesomeOscillator, HullMovingAverage, PivotReversalStrategy) are covered up to the step at "
                  "which the detector's position counter saturates (C07/C14 known finding: precondition in_capacity)"],
 )
@@ -415,8 +419,8 @@ PROPS["C15"] = dict(
            "Range preservation as a one-step fact (every value the instance holds and every output stay within the bounds of the inputs) is proved in unit ma_instance for SMA, WMA, RMA, EMA, DMA, TMA, WSMA, SMM, SWMA, "
            "TRIMA and Vidya and lifted to the dispatch enum MAInstance; HMA, DEMA, TEMA and LinReg are not range-preserving (they extrapolate) and are marked so. "
            "That the `MA` wrapper behaves like the kind it names (init builds that kind with that length, next steps it, distinct kinds have distinct type tags) is unit ma_dispatch."),
-    assumptions=[REALS, "SWMA, TRIMA, HMA, LinReg, Vidya, VWMA, Conv: no law lemmas yet (HMA/TRIMA follow by composition of the WMA/SMA lemmas but that step is not machine-checked)",
-                 "MA enum dispatch (MA::init) is not under contract"],
+    assumptions=[REALS, "affine equivariance and superposition are proved for SMA, WMA and the EMA recurrence only; for the other kinds only range preservation (ma_instance) is machine-checked",
+                 "VWMA and Conv (weights supplied by the caller) have no law lemmas"],
 )
 PROPS["C13"] = dict(
     verus=["window_serde", "window", "smm_serde"], kani=["window"],
